@@ -27,8 +27,8 @@ Goal forall opp ps, (forall p, In p ps -> 0 <= snd p) ->
 Goal forall p1 p2, legacy_fused_projected p1 p2 >= p1 /\ legacy_fused_projected p1 p2 >= p2. Abort.
 
 (* admission_exact *)
-Goal forall ops, admitted ops = true <-> (forall pa, In pa ops -> fst pa <= snd pa). Abort.
-Goal forall ops, admitted ops = false <-> exists pa, In pa ops /\ fst pa > snd pa. Abort.
+Goal forall ops, plan_accepted ops = true <-> (forall pa, In pa ops -> fst pa <= snd pa). Abort.
+Goal forall ops, plan_accepted ops = false <-> exists pa, In pa ops /\ fst pa > snd pa. Abort.
 Goal forall ops pa, In pa ops -> fst pa = snd pa -> exceeds pa = false. Abort.
 Goal forall ops, (forall pa, In pa ops -> 0 <= fst pa) ->
   (forall pa, In pa ops -> fst pa <= max_projected ops) /\
